@@ -99,6 +99,27 @@ CHECKS = {
    design_ref="DESIGN.md section 3 C14",
    note="An accidental 128-bit collision outside the explored set cannot be excluded. Engine-visible aliasing is additionally covered by every C01 run (all query types share every key payload).",
    engine="E5/E6 type universe"),
+ "C11": dict(
+   technique="model-based (stateful) property testing: generated batch/commit/drop/reopen histories over a typed column zoo run against MockKv, RocksDB and Fjall, typed reference maps as oracle, full read-back after every step",
+   category="exploration",
+   text="Histories over 13 wide columns (keys (), u8, u64, String, Vec<u8>, (u8,Vec<u8>), Option<Vec<u8>>, Vec<Vec<u8>>, Compact128; prefixed and suffixed discriminants; discriminant types u8, (), (StableTypeID, enum); two value types per key) and 5 key-of-set columns ((), QueryID, strings, byte strings), with keys and elements drawn to be prefixes/extensions of one another, empty, 0xFF/0x00-heavy, length-prefix look-alikes and 4 KiB long. Batches are built directly or through a serialization buffer, committed or dropped; the store is reopened (all handles dropped, same directory / same Store). After every step every touched (column, key, value type) and every touched set key is read back: a point read must return the last committed value of exactly that key, a scan exactly the committed members of exactly that key with no duplicates; uncommitted batches must be invisible; content must survive reopen. Run on MockKv (vcheck) and on real RocksDB and Fjall databases in scratch directories (vbackends).",
+   design_ref="DESIGN.md section 3 C11",
+   note="Single-threaded histories against each backend (concurrent use of one backend handle is exercised by C10 through MockKv only). OS-crash durability of the real backends (fsync behaviour) is outside the property and not tested. RocksDB/Fjall themselves are trusted below the KvDatabase adapter.",
+   engine="E8 backend model"),
+ "C15": dict(
+   technique="property-based testing: generated OS-thread plans on the Interner with a witness table as oracle, placements parked at a hook point inside intern(), and round-trip + pointer-sharing oracle over generated structures of interned handles",
+   category="exploration",
+   text="(a) plans for 2..8 (thorough 16) OS threads over few values x six value types (String, str, [u8], a derived struct, u32 and a newtype with the same hash stream as u32): intern / intern_unsized / get_from_hash / clone / drop / vacuum / request_vacuum on interners with 2..64 shards, with and without the vacuum thread; a witness table checks that registered live handles of equal values are one allocation, contents equal the value, and values of different types never share an entry. (b) thread A parked (verif_hooks sync point) between the read miss and the write-lock re-check while B interns/keeps, interns/drops or vacuums. (c) generated structures with repeated Interned handles at several nestings are encoded once and decoded with the same and with a fresh interner: equal, exactly consumed, pointer-sharing pattern reproduced, every decoded handle canonical.",
+   design_ref="DESIGN.md section 3 C15",
+   note="Thread plans sample the OS scheduler except at the one parked hook point; the oracle is interleaving independent.",
+   engine="E9 interner/LFU harness"),
+ "C16": dict(
+   technique="model-based property testing: generated op streams on TinyLFU with a pin-aware reference map and a residency bound; generated multi-task lock plans on the engine's query lock table with in-critical-section witness counters",
+   category="exploration",
+   text="Op streams of 50..950 (thorough 3000) operations on TinyLFU<u16, value, listener> for capacities {1,2,3,8,33,100,300}, both unpin strategies and both maintenance modes, key universe 4x..20x capacity with skewed popularity: get / insert-if-vacant / upsert / remove / pin / unpin (+ notification) / touch. Oracle: a get returns the latest version or None, None only for keys that are not pinned, never a removed version; a pinned key is always resident with its latest value; resident entries stay within capacity + pinned + the documented maintenance slack (judged only in piggy-back maintenance mode, where maintenance is deterministic). Lock-table runs: the engine's query lock manager (through the verif_hooks wrapper) with capacity 1..8, 2..16 tasks on an 8-worker runtime taking shared/exclusive locks on 2..64 ids; witness counters inside the critical section detect two holders of an exclusive lock or a reader beside a writer.",
+   design_ref="DESIGN.md section 3 C16",
+   note="The residency bound's slack constants are taken from the implementation (MAINTENANCE_BATCH_SIZE) and stated in the evidence rule. In dedicated-thread maintenance mode only the value/pin oracle is judged (residency there depends on when the thread runs).",
+   engine="E9 interner/LFU harness"),
 }
 
 NOT_YET = {
@@ -142,8 +163,10 @@ def main():
             {"name": "E2 single-thread scheduler", "path": "harness/vcore/src/sched.rs", "serves_properties": ["C02", "C04", "C05", "C06"], "kind_free_text": "tape-driven select loop over harness futures + verif_hooks controller; idle-runtime deadlock oracle (paused tokio clock)"},
             {"name": "E7 thread stress", "path": "harness/vcore/src/ck_sets.rs", "serves_properties": ["C02"], "kind_free_text": "generated OS-thread plans with interleaving-independent oracles"},
             {"name": "E5 type universe", "path": "harness/vtypes/src/main.rs", "serves_properties": ["C12", "C13", "C14"], "kind_free_text": "macro-generated monomorphised type list with value generators, recording hasher, term mirror; supervisor/worker process isolation"},
+            {"name": "E8 backend model", "path": "harness/vcore/src/ck_backend.rs", "serves_properties": ["C11"], "kind_free_text": "history interpreter generic over KvDatabase with typed reference maps; harness/vbackends runs it on RocksDB and Fjall"},
+            {"name": "E9 interner/LFU harness", "path": "harness/vcore/src/ck_intern.rs", "serves_properties": ["C15", "C16"], "kind_free_text": "OS-thread plans with witness tables (ck_intern.rs), op streams with reference map (ck_lfu.rs)"},
             {"name": "E4 storage model harness", "path": "harness/vcore/src/ck_storage.rs", "serves_properties": ["C09", "C10"], "kind_free_text": "op-stream interpreters over the public storage types with reference models"},
-            {"name": "E3 MockKv", "path": "harness/vcore/src/mockkv.rs", "serves_properties": ["C01", "C03", "C07", "C08", "C09", "C10"], "kind_free_text": "scripted logging KvDatabase with commit gate, grouping policy, prefix re-materialisation"},
+            {"name": "E3 MockKv", "path": "harness/vcore/src/mockkv.rs", "serves_properties": ["C01", "C03", "C07", "C08", "C09", "C10", "C11"], "kind_free_text": "scripted logging KvDatabase with commit gate, grouping policy, prefix re-materialisation"},
         ],
         "checks": checks,
         "not_applicable": na,
